@@ -155,7 +155,7 @@ def trend(n='S_n', s='S_sum', sxt='S_sum_xt'):
     return st, stt, alpha, beta
 
 
-def ref_trend(kind, n='S_n', s='S_sum', sxt='S_sum_xt', sxx='S_sum_xx'):
+def ref_trend(kind, n='S_n', s='S_sum', sxt='S_sum_xt', sxx='S_sum2'):
     st, stt, alpha, beta = trend(n, s, sxt)
     if kind == 'reg':
         return '(%s + %s*%s)' % (alpha, beta, n)
@@ -170,7 +170,7 @@ def ref_trend(kind, n='S_n', s='S_sum', sxt='S_sum_xt', sxx='S_sum_xx'):
                 % (sxx, alpha, s, beta, sxt, alpha, n, alpha, beta, st, beta, stt, n))
 
 
-def regx(n='S_n', a='S_sum_a', b='S_sum_b', ab='S_sum_ab', b2='S_sum_b2', a2='S_sum_a2'):
+def regx(n='S_n', a='S_sum_a', b='S_sum_b', ab='S_sum_ab', b2='S_sum2_b', a2='S_sum2_a'):
     beta = '((%s*%s - %s*%s)/(%s*%s - %s**2))' % (n, ab, a, b, n, b2, b)
     alpha = '((%s - %s*%s)/%s)' % (a, beta, b, n)
     sse = '(%s - %s*%s - %s*%s)' % (a2, alpha, a, beta, ab)
